@@ -62,6 +62,10 @@ def judge (ops impl : List String) : Bool × String :=
   match parse ops with
   | none => (false, "bad-op")
   | some (interval, evs) =>
+    -- outside the statement's quantifier ("time-ordered history", a sampling interval > 0): compared with the
+    -- model only (both must panic at the same event, or not at all)
+    if interval = 0 then (true, "not-applicable: interval 0") else
+    if !decide (Nondecr H.init evs) then (true, "not-applicable: history not time-ordered") else
     if impl.contains "panic" then (false, "implementation panicked") else
     if impl.length ≠ evs.length + 1 then (false, "wrong number of output lines") else
     -- walk events and outputs together
@@ -85,7 +89,11 @@ def judge (ops impl : List String) : Bool × String :=
         let h' := hstep h e
         match words o with
         | ["ok"] => go h' es os handed groups lastEnd
-        | ["delta", d] => go h' es os (handed + nat! d) groups lastEnd
+        | ["delta", d] =>
+          -- per hand-out: what has been handed out so far is exactly the running time observed so far
+          if handed + nat! d ≠ h'.running then
+            (false, s!"cpu: delta {d} handed out after {handed}, but the running time observed so far is {h'.running}")
+          else go h' es os (handed + nat! d) groups lastEnd
         | ["group", "none"] => go h' es os handed groups lastEnd
         | ["group", b, en, c] =>
           let b := nat! b; let en := nat! en; let c := nat! c
